@@ -77,6 +77,8 @@
 (*        x is no local for it - it gets no cell and is invisible to the inner functions,    *)
 (*        and a read before the assignment finds an outer / global x instead of raising)     *)
 (* census marks (no deviation, never an excuse; show that the situations occur):             *)
+(*  excexit a guard inside an interpreted function caught an exception that left the           *)
+(*        activation of a callee (afterwards the caller's own declarations must govern)       *)
 (*  encsub an item of a list is stored / deleted / rebound through a target o[i] whose         *)
 (*        container or index is a variable of an ENCLOSING activation (the closure must have *)
 (*        captured a name that it mentions only inside an assignment target)                 *)
@@ -508,7 +510,12 @@ Exec(P, M, f, body, i) ==
   IF i > Len(body) THEN Res(M, Fall)
   ELSE LET s  == body[i]
            r0 == Stmt(P, M, f, s)
-           r  == IF IsExc(r0.r) /\ s.g > 0 /\ r0.r.e \in Catchable THEN Res(LogExc(r0.M, s.g, r0.r.e), Fall) ELSE r0
+           caught == IsExc(r0.r) /\ s.g > 0 /\ r0.r.e \in Catchable
+           \* census: a guard inside an interpreted function catches an exception of a statement during which the
+           \* body of an interpreted function started (the exception left a callee's activation)
+           ee == caught /\ f # 0 /\ P.codes[M.frames[f].code].kind = "func"
+                 /\ \E j \in (Len(M.frames) + 1)..Len(r0.M.frames) : P.codes[r0.M.frames[j].code].kind = "func"
+           r  == IF caught THEN Res(LogExc(IF ee THEN Mark(r0.M, "excexit") ELSE r0.M, s.g, r0.r.e), Fall) ELSE r0
        IN IF r.r.k = "fall" THEN Exec(P, r.M, f, body, i + 1) ELSE r
 
 \* container and index of o[i], evaluated in this order; result [k |-> "ref", o, i] or an exception.
@@ -639,7 +646,7 @@ Expected(prog, flags) ==
       M0 == [frames |-> <<>>, globs |-> [c \in {"main"} |-> [n \in names |-> Unbound]], ctx |-> <<"main">>,
              objs |-> <<>>, lsts |-> <<>>, box |-> <<>>, log |-> <<>>, fuel |-> prog.fuel,
              ndef |-> {}, marks |-> [m \in {"sv", "xdel", "comp", "ucap", "excas", "ndflt", "dyncap", "nldyn", "amb",
-                                            "annloc", "encsub"} |-> 0]]
+                                            "annloc", "encsub", "excexit"} |-> 0]]
       r  == Exec(P, M0, 0, prog.codes[1].body, 1)
   IN [log |-> IF IsExc(r.r) THEN Append(r.M.log, [s |-> 0, k |-> r.r.e, n |-> 0]) ELSE r.M.log, marks |-> r.M.marks]
 =============================================================================
